@@ -164,9 +164,13 @@ def upvar_of(base):
     return None
 
 
-def closure_events(a, cl):
-    """Ordered events per block of a closure body: list of (bb, order, kind, data)."""
+def closure_events(a, cl, region=None):
+    """Ordered events per block of a step body: list of (bb, order, kind, data).  A step is a closure body (region None: slots are
+    pointers derived from the closure's item parameters, positions are by-reference upvars) or one iteration of a loop over an iterator
+    pipeline (region = loops.Loop: slots are the pointers yielded by this loop's next(), positions are fields of tracked owners)."""
     ev = []
+    if region is not None:
+        return region.events(cl)
     for c in a.calls:
         order = 10 ** 6
         kind = None
@@ -209,9 +213,10 @@ def closure_events(a, cl):
     return by_bb
 
 
-def run_protocol(a, by_bb):
-    """Dataflow of (reads per slot, writes per slot, incs per position) over the closure's normal CFG.
-    Returns dict: states at each foreign event, states at return, slots, positions, bad increments."""
+def run_protocol(a, by_bb, entries=(0,), stop=None, inside=None):
+    """Dataflow of (reads per slot, writes per slot, incs per position) over the step's normal CFG (a closure body from block 0 to its
+    returns, or a loop iteration from `entries` to the edge back to block `stop`, staying `inside` the loop's blocks).
+    Returns dict: states at each foreign event, states at the end of a step, slots, positions, bad increments."""
     slots, poss = [], []
     for evs in by_bb.values():
         for e in evs:
@@ -220,11 +225,12 @@ def run_protocol(a, by_bb):
             if e[2] == "inc" and e[3][0] not in poss:
                 poss.append(e[3][0])
     zero = (tuple(0 for _ in slots), tuple(0 for _ in slots), tuple(0 for _ in poss))
-    states = {0: {zero}}
+    states = {e0: {zero} for e0 in entries}
     at_foreign = []  # (event, state)
     at_return = set()
+    at_break = set()
     bad_inc = []
-    work = [0]
+    work = list(entries)
     seen_pairs = set()
     blocks = a.blocks
     while work:
@@ -248,21 +254,30 @@ def run_protocol(a, by_bb):
                     at_foreign.append((e, (tuple(r), tuple(w), tuple(i))))
             out = (tuple(r), tuple(w), tuple(i))
             t = blocks[bb]["term"]
-            if t["k"] == "return":
+            if t["k"] == "return" and stop is None:
                 at_return.add(out)
             for s2 in a.edges.get(bb, []):
                 if blocks[s2]["cleanup"]:
                     continue
+                if stop is not None and s2 == stop:
+                    at_return.add(out)
+                    continue
+                if inside is not None and s2 not in inside:
+                    at_break.add(out)  # leaves the loop in the middle of a step (break / return / ?)
+                    continue
                 if out not in states.setdefault(s2, set()):
                     states[s2].add(out)
                     work.append(s2)
-    return {"slots": slots, "positions": poss, "at_foreign": at_foreign, "at_return": at_return, "bad_inc": bad_inc}
+    return {"slots": slots, "positions": poss, "at_foreign": at_foreign, "at_return": at_return, "at_break": at_break, "bad_inc": bad_inc}
 
 
-def check_closure_protocol(a, cl):
+def check_closure_protocol(a, cl, region=None):
     """Returns (role, ok, detail, info). role in consumer / builder / untracked-consumer / none."""
-    by_bb = closure_events(a, cl)
-    info = run_protocol(a, by_bb)
+    by_bb = closure_events(a, cl, region)
+    if region is None:
+        info = run_protocol(a, by_bb)
+    else:
+        info = run_protocol(a, by_bb, region.entries, region.nxt.bb, region.blocks)
     slots, poss = info["slots"], info["positions"]
     reads = any(e[2] == "read" for evs in by_bb.values() for e in evs)
     writes = any(e[2] == "write" for evs in by_bb.values() for e in evs)
@@ -308,7 +323,7 @@ def check_closure_protocol(a, cl):
         problems.append("closure both reads and writes raw slots; not a recognised protocol")
     # within a block / path: for builder, write must come before inc (advance before write is COUNT_AHEAD)
     if role == "builder":
-        order_ok = _order_ok(a, by_bb, first="write", then="inc")
+        order_ok = _order_ok(a, by_bb, first="write", then="inc", region=region)
         if not order_ok:
             problems.append("position advanced before the slot is written")
     det = "slots=%d positions=%s foreign/panic sites=%d" % (len(slots), poss, len(info["at_foreign"]))
@@ -318,11 +333,12 @@ def check_closure_protocol(a, cl):
     return role, not allp, "; ".join(allp) if allp else det, info
 
 
-def _order_ok(a, by_bb, first, then):
+def _order_ok(a, by_bb, first, then, region=None):
     """On every path, each `then` event is preceded by a `first` event (single-shot bodies)."""
     # dataflow: seen_first flag
-    states = {0: {False}}
-    work = [0]
+    entries = (0,) if region is None else tuple(region.entries)
+    states = {e0: {False} for e0 in entries}
+    work = list(entries)
     done = set()
     ok = True
     while work:
@@ -339,6 +355,8 @@ def _order_ok(a, by_bb, first, then):
                     ok = False
             for s2 in a.edges.get(bb, []):
                 if a.blocks[s2]["cleanup"]:
+                    continue
+                if region is not None and (s2 == region.nxt.bb or s2 not in region.blocks):
                     continue
                 if cur not in states.setdefault(s2, set()):
                     states[s2].add(cur)
